@@ -392,6 +392,15 @@ func execHistory(ops []histOp) (fields []string, run *histRun) {
 				_ = t.DefinedTemplates()
 				_ = t.Name()
 				res = "info"
+			case "O":
+				// (*Template).Option(name): configures the set; no state of the model changes (wire = an info op)
+				wire = fmt.Sprintf("I:%d", op.h)
+				if t == nil {
+					res = "badop"
+					return
+				}
+				t.Option(op.name)
+				res = "info"
 			case "Z":
 				wire = fmt.Sprintf("Z:%d", op.h)
 				if t == nil {
@@ -561,6 +570,9 @@ var defPool = []string{
 	`{{define "X"}}<a href="j{{.A}}">x</a>{{end}}{{define "Y"}}<a href="{{.A}}">y</a>{{end}}{{define "Z"}}<a href="&#106;ava{{.A}}">z</a>{{end}}m`,
 	`{{define "X"}}<b {{if .T}}title{{else}}onclick{{end}}="{{.A}}">x</b>{{end}}{{define "Y"}}<b title="{{.A}}">y</b>{{end}}m`,
 	`{{define "X"}}{{if .T}}<script>{{else}}<p>{{end}}{{.A}}{{end}}{{define "Y"}}<p>{{.A}}</p>{{end}}m`,
+	// static text that only the CSP-compatible mode refuses; a key the data does not have (Option missingkey=...)
+	`{{define "X"}}<a onclick="f()">{{.A}}</a>{{end}}{{define "Y"}}<p>{{.A}}</p>{{end}}<a href="javascript:void(0)">{{.B}}</a>`,
+	`{{define "X"}}<p>{{.Nope}}</p>{{end}}{{define "Y"}}<i>{{.A}}</i>{{end}}<b>{{.Nope}}{{.B}}</b>`,
 	// helpers that are literal text only, whose text the analysis REWRITES in an HTML text context (a comment is
 	// elided, a '<' that starts no tag is escaped) and keeps verbatim elsewhere, called from different contexts by
 	// different members (a tree shared between derived copies, callers, or the members of a clone family shows)
@@ -606,7 +618,11 @@ func genHistory(n int) []histOp {
 		case r < 97:
 			ops = append(ops, histOp{kind: "I", h: h})
 		case r < 98:
-			ops = append(ops, histOp{kind: "Z", h: h})
+			if rng.Intn(2) == 0 {
+				ops = append(ops, histOp{kind: "O", h: h, name: pick([]string{"missingkey=zero", "missingkey=error", "missingkey=default"})})
+			} else {
+				ops = append(ops, histOp{kind: "Z", h: h})
+			}
 		default:
 			ops = append(ops, histOp{kind: "N", name: pick(histNames)})
 			nh++
